@@ -37,6 +37,14 @@ reg("C03", "Hypothesis -> gensquashfs/tar2sqfs (asan) -> independent validator",
     "table layout checks), D1, I1-I5, R1-R4, X1, E1 of DESIGN.md. Any violated invariant is reported by name.",
     "Trusts lib/sqfsimg.py and the invariant list (doc/format.adoc + Linux fs/squashfs table sanity checks).", "DESIGN.md 4/C03")
 
+reg("C04", "Hypothesis -> tar2sqfs/sqfs2tar (asan) -> independent parser, Python tarfile, GNU tar", "exploration",
+    "property-based round trips: independent tar writer -> tar2sqfs -> independent parser == reference semantics; sqfs2tar -> two independent tar readers; byte-exact fix point",
+    "Archives of every documented dialect are written by an independent generator (cross-checked per case by Python tarfile), converted by the "
+    "real tar2sqfs and compared through the independent SquashFS parser with the reference semantics of tar2sqfs.1; sqfs2tar output is read by "
+    "Python tarfile and extracted by GNU tar as root and compared with the image; the tar->image->tar->image fix point is compared byte for byte.",
+    "Trusts lib/tarimg.py (writer + Appendix B semantics), lib/sqfsimg.py, Python tarfile and GNU tar 1.34 as readers. One known finding "
+    "(xattr order flips per trip) is excluded by signature and reported as KNOWN-FINDING.", "DESIGN.md 4/C04")
+
 NOT_YET = {}
 
 ALL = ["C%02d" % i for i in range(1, 20)]
